@@ -390,6 +390,7 @@ func HashInts(vs ...uint64) uint64 {
 type Prop[C any] struct {
 	ID      string
 	Variant string // distinguishes several case types under one property id
+	Thin    int    // when > 1, only one in Thin rapid iterations generates and evaluates a case (expensive variants)
 	Gen     func(t *rapid.T) C
 	Check   func(c C, x *Ctx) *Failure
 }
@@ -455,6 +456,9 @@ func (p Prop[C]) EvalFast(c C, hash uint64) *Failure {
 // Run is the rapid search for the property.
 func (p Prop[C]) Run(t *testing.T) {
 	rapid.Check(t, func(rt *rapid.T) {
+		if p.Thin > 1 && rapid.IntRange(0, p.Thin-1).Draw(rt, "thin") != 0 {
+			return
+		}
 		c := p.Gen(rt)
 		if f := p.Eval(c); f != nil {
 			rt.Fatalf("VIOLATION-CANDIDATE property=%s variant=%s key=%s: %s", p.ID, p.Variant, f.Key, f.Msg)
